@@ -124,9 +124,11 @@ def val_to_wire(v):
 
 
 def run_model(num, vals, shards=None):
-    """Run the extracted model on a list of wire values; returns list of python values."""
+    """Run the extracted model on a list of wire values; returns list of python values.
+    `num` is the property number of the entry, or a list with one number per value."""
     if not vals:
         return []
+    nums = num if isinstance(num, list) else [num] * len(vals)
     if not os.path.exists(DRIVER):
         raise MachineryError('ocaml driver missing (run setup_cmd)')
     shards = shards or max(1, min(NCPU, len(vals) // 200 + 1))
@@ -138,8 +140,8 @@ def run_model(num, vals, shards=None):
         for k, (a, b) in enumerate(bounds):
             inp = os.path.join(tmpd, 'in%d' % k)
             with open(inp, 'w') as f:
-                for v in vals[a:b]:
-                    f.write('%d %s\n' % (num, val_to_wire(v)))
+                for n_, v in zip(nums[a:b], vals[a:b]):
+                    f.write('%d %s\n' % (n_, val_to_wire(v)))
             fo = open(os.path.join(tmpd, 'out%d' % k), 'w')
             p = subprocess.Popen(['bash', '-c', 'ulimit -s unlimited 2>/dev/null; exec "%s"' % DRIVER],
                                  stdin=open(inp), stdout=fo, stderr=subprocess.PIPE)
@@ -265,7 +267,7 @@ def evaluate(mod, cases, modes, tier, timeout_s=None):
     timeout_s = timeout_s or getattr(mod, 'TIMEOUT_S', 20.0)
     vals = [mod.to_val(c) for c in cases]
     t0 = time.time()
-    raw = run_model(mod.NUM, vals)
+    raw = run_model([mod.num_of(c) for c in cases] if hasattr(mod, 'num_of') else mod.NUM, vals)
     t_model = time.time() - t0
     recs = []
     for c, v in zip(cases, raw):
@@ -311,6 +313,14 @@ def judge(mod, rec, known_entries):
     """Classify one record. Returns (kind, detail) with kind in
     ok | known:<id> | violation | corr (impl != model but impl == spec)."""
     worst = ('ok', None)
+    if hasattr(mod, 'cross_mode'):
+        msg = mod.cross_mode(rec['case'], rec['impl'], rec['model'])
+        if msg:
+            kid = mod.known(rec['case'], rec['impl'], rec['model'], rec['spec'], 'cross') if hasattr(mod, 'known') else None
+            if kid is not None and any(k['id'] == kid and k.get('status') == 'known' for k in known_entries):
+                worst = ('known:' + kid, 'cross')
+            else:
+                return ('violation', 'cross:' + msg)
     for mode, impl in rec['impl'].items():
         cmp_ = getattr(mod, 'equal', None)
         sok = getattr(mod, 'spec_ok', None)
